@@ -869,6 +869,9 @@ static void check_log_mirrors_trace() {
   for (unsigned i = 0; i < g_log_len && i < sizeof g_log_state; ++i) {
     const int s = g_log_state[i];
     if (s >= VM_NS || !VM_HAS_STUB(s)) continue;                 // verbose mode also reports states without user code (anonymous heads)
+#ifdef VM_UTILITY
+    if (g_log_method[i] == (uint8_t) Method::RANK && !VM_HAS_RANK(s)) continue;     // ... and methods a state does not override (mixed-override stubs): not user-defined callbacks
+#endif
     VASSERT(C16, k < g_trace_len && g_trace_state[k] == s && g_trace_method[k] == g_log_method[i], "the logger is told every user-defined callback, in the order it happens, with the right state");
     ++k;
   }
